@@ -93,6 +93,10 @@ func derive(r *rand.Rand, o gen.Opts, s *abs.TD, depth int) *abs.TD {
 			continue // removed
 		}
 		g := f
+		if f.Opt == "proto" && gen.Base(f.T).K == "slice" && r.Intn(2) == 0 {
+			// the reader reads the repeated-field form through an untagged (counted-form) slice field: the documented cross-reading
+			g.Opt = ""
+		}
 		if r.Intn(2) == 0 { // renamed
 			g.GN = fmt.Sprintf("R%d", i)
 			if !f.Enc && (f.GN[0] >= 'a' && f.GN[0] <= 'z') {
